@@ -2,6 +2,7 @@ import Capella.Lemmas.Decl
 import Capella.Lemmas.DeclCE2
 import Capella.Lemmas.DeclOrder2
 import Capella.Lemmas.DeclAttr2
+import Capella.Lemmas.DeclAll2
 
 /-!
 # C12 — declarative modelling resolves promises independently of declaration order
@@ -412,6 +413,119 @@ theorem C12_scalars {mm : MM} {sc : Str → Option Str → Str} {pm : Str → Op
     ∀ i k, r.1.getScal i k = r'.1.getScal i k :=
   scalars_order_independent (g1 := r.1) (ps1 := r.2) (g2 := r'.1) (ps2 := r'.2) hdoc hat hfresh hdom hnd hp h h'
 
+/-! ## every document: create, extend, set (scalar and list), sync (found and create branch, nested), delete
+
+`declaredAll doc p`: the number of `promise_id: p` sites anywhere in the document — object descriptions below
+`create` / `extend` / a `set` list / the `extend` of a sync entry, and sync entries themselves.
+`dropAll doc p`: how many of them the create branch of `_operate_sync` can lose when it builds the new object
+from `find | set | extend` (Python `dict |`: a list below `set` that is overridden by a list of the same name
+below `extend` disappears with everything declared inside it); `0` for every document whose sync entries
+have distinct `set` and `extend` keys. -/
+
+def declaredAll (doc : List Instr) (p : Str) : Nat := docPid (indS p) doc
+def dropAll (doc : List Instr) (p : Str) : Nat := docDrop (indS p) doc
+
+/-- **The loop as coded stops exactly when no progress is possible** (any document, any model): when
+`while instructions:` ends, the deque and the running generator are empty and every entry still parked in
+`deferred` is filed under a promise id that is not in `promises` — there is no lost wake-up (binding an id
+re-queues everything filed under it: `State.fulfil`) and no entry waits for something already bound. -/
+theorem loop_ends_at_fixpoint {mm : MM} {g : Graph} {doc : List Instr} {n : Nat} {sf : State}
+    (h : run mm n (init g doc) = some (.ok sf)) :
+    sf.agenda = [] ∧ sf.queue = [] ∧ ∀ e ∈ sf.deferred, sf.ps.lookup e.1 = none :=
+  run_end_fixpoint n _ sf (init_unbound g doc) h
+
+/-- **"No progress" detection is exact**: `apply` returns the bindings iff the loop ended with nothing parked;
+otherwise it raises `UnfulfilledPromisesError` naming exactly the ids entries are parked under, and every one
+of them is unbound at that moment (never an id that some executed declaration bound). -/
+theorem no_progress_detection {mm : MM} {g : Graph} {doc : List Instr} {sf : State}
+    (hr : run mm ((init g doc).measure + 1) (init g doc) = some (.ok sf)) :
+    (sf.deferred = [] → apply mm g doc = .ok (sf.g, sf.ps)) ∧
+    (sf.deferred ≠ [] → apply mm g doc = .error (.unfulfilled (sf.deferred.map (·.1)).eraseDups) ∧
+      ∀ p ∈ (sf.deferred.map (·.1)).eraseDups, sf.ps.lookup p = none) := by
+  obtain ⟨_, _, hu⟩ := loop_ends_at_fixpoint hr
+  constructor
+  · intro hd; simp [apply, hr, Except.bind, finish, hd]
+  · intro hd
+    constructor
+    · cases hdd : sf.deferred with
+      | nil => exact absurd hdd hd
+      | cons x t => simp [apply, hr, Except.bind, finish, hdd]
+    · intro p hp
+      obtain ⟨e, he, rfl⟩ := List.mem_map.mp (List.mem_eraseDups.mp hp)
+      exact hu e he
+
+/-- **Nothing is bound that the document does not declare** (every document): an id in the returned mapping
+is carried by a `promise_id` site of the document. -/
+theorem bound_only_if_declared_all {mm g doc g' ps'} (h : apply mm g doc = .ok (g', ps')) (p : Str) (i : Id)
+    (hb : ps'.lookup p = some i) : 1 ≤ declaredAll doc p := by
+  have := (apply_acct (indS p) h).1
+  rw [bound_indS] at this
+  have : 0 < (ps'.map Prod.fst).count p := List.count_pos_iff.mpr (lookup_mem_keys hb)
+  unfold declaredAll; omega
+
+/-- **A promise id declared twice makes the application fail — for set, sync (both branches) and delete
+documents as well**: after a successful `apply` of a document that cannot lose declarations in a
+`find | set | extend` merge, every promise id is carried by at most one site (object description or sync entry). -/
+theorem duplicate_promise_raises_all {mm g doc g' ps'} (h : apply mm g doc = .ok (g', ps')) (p : Str)
+    (hd : dropAll doc p = 0) : declaredAll doc p ≤ 1 := by
+  have := (apply_acct (indS p) h).2
+  rw [bound_indS] at this
+  have hn := List.nodup_iff_count.mp (apply_ok_nodup h) p
+  unfold declaredAll dropAll at *; omega
+
+/-- **… and every declaration is carried out**: such a document's declared ids are all in the returned mapping
+(with `bound_only_if_declared_all`: the mapping's keys are exactly the declared ids, each bound once). -/
+theorem declared_is_bound_all {mm g doc g' ps'} (h : apply mm g doc = .ok (g', ps')) (p : Str)
+    (hd : dropAll doc p = 0) (hdecl : 1 ≤ declaredAll doc p) : ∃ i, ps'.lookup p = some i := by
+  have := (apply_acct (indS p) h).2
+  rw [bound_indS] at this
+  cases hl : ps'.lookup p with
+  | some i => exact ⟨i, rfl⟩
+  | none =>
+    have := List.count_eq_zero.mpr (lookup_none_not_mem _ _ hl)
+    unfold declaredAll dropAll at *; omega
+
+/-- in general the loss is bounded by the drop potential: `declared ≤ bound + drop` -/
+theorem declared_le_bound_plus_drop {mm g doc g' ps'} (h : apply mm g doc = .ok (g', ps')) (p : Str) :
+    declaredAll doc p ≤ (ps'.map Prod.fst).count p + dropAll doc p := by
+  have := (apply_acct (indS p) h).2
+  rw [bound_indS] at this
+  exact this
+
+/-- `!promise` below `delete:` raises ValueError whatever the state (it is never parked) -/
+theorem delete_promise_raises (st : State) (par : Id) (attr p : Str) :
+    stepDel st par attr (.atom (.promise p)) = .error .valueError := rfl
+
+/-- The statement without the hypothesis on the merge: "success ⇒ every id declared at most once". **False**
+for the code as it is (`duplicate_all_full_fails`). -/
+def Duplicate_all_full : Prop :=
+  ∀ (mm : MM) (g : Graph) (doc : List Instr) (r : Graph × Promises) (p : Str),
+    apply mm g doc = .ok r → declaredAll doc p ≤ 1
+
+/-- the witness: a sync entry (create branch) whose `set: {classes: [{promise_id: K}]}` is overridden by
+`extend: {classes: []}`; a second instruction declares `K` again -/
+def dropWitness : List Instr := [
+  { parent := .atom (.uuid 1),
+    sync := [(s "packages", [.mk 20 21 none [(s "name", .str (s "P"))] none
+      [(s "classes", .list [.obj 22 (some (s "K")) none [(s "name", .atom (.str (s "A")))] []])]
+      [(s "classes", [])] []])] },
+  { parent := .atom (.uuid 1),
+    ext := [(s "classes", [.obj 23 (some (s "K")) none [(s "name", .atom (.str (s "B")))] []])] }]
+
+theorem dropWitness_ok :
+    (match apply (MM.free []) witnessGraph dropWitness with | .ok r => some r.2 | .error _ => none)
+      = some [(s "K", 23)] ∧ declaredAll dropWitness (s "K") = 2 ∧ dropAll dropWitness (s "K") = 1 := by
+  decide
+
+theorem duplicate_all_full_fails : ¬ Duplicate_all_full := by
+  intro h
+  have hw := dropWitness_ok
+  cases h1 : apply (MM.free []) witnessGraph dropWitness with
+  | error e => simp [h1] at hw
+  | ok r =>
+    have := h _ _ _ r (s "K") h1
+    omega
+
 /-! ## non-vacuity -/
 
 /-- the witness is a create/extend document, both orders succeed, `K` is bound to its declarer (13) -/
@@ -458,5 +572,32 @@ example : (match apply (MM.free []) witnessGraph cyclic with | .error e => some 
     = some (.unfulfilled [s "B", s "A"]) := by decide
 /-- the measure of the witness and a transition that lowers it -/
 example : (init witnessGraph witness).measure = 23 := by decide
+
+/-- all-document theorems: a set + sync (found and create branch) + delete document; the loop ends at the
+fixpoint, ids are bound exactly once, nothing can be dropped -/
+def opsDoc : List Instr := [
+  { parent := .atom (.promise (s "c")),
+    set := [(s "super", .scalar (.atom (.promise (s "k")))),
+            (s "owned_properties", .list [.obj 30 (some (s "pr")) none [(s "name", .atom (.str (s "x")))] []])] },
+  { parent := .atom (.uuid 1),
+    sync := [(s "classes", [
+      .mk 31 41 none [(s "name", .str (s "C"))] (some (s "c")) [] [] [],
+      .mk 32 42 none [(s "name", .str (s "K"))] (some (s "k")) [(s "super", .scalar (.atom (.promise (s "c"))))] [] []])],
+    del := [(s "classes", [.atom (.uuid 5)])] }]
+def opsGraph : Graph :=
+  { objs := [(1, s "DataPkg"), (5, s "Class")], scal := [((5, s "name"), .str (s "C"))], edges := [(1, s "classes", 5)] }
+example : (match apply (MM.free []) opsGraph opsDoc with | .ok r => some r.2 | .error _ => none)
+    = some [(s "c", 5), (s "k", 32), (s "pr", 30)] := by decide
+example : declaredAll opsDoc (s "c") = 1 ∧ declaredAll opsDoc (s "pr") = 1 ∧ dropAll opsDoc (s "c") = 0 := by decide
+/-- a stuck document: the loop ends with two entries parked under unbound ids; `apply` names exactly those -/
+def stuckDoc : List Instr := [
+  { parent := .atom (.promise (s "nobody")), set := [(s "name", .scalar (.atom (.str (s "x"))))] },
+  { parent := .atom (.uuid 1), sync := [(s "classes", [
+      .mk 31 41 none [(s "name", .str (s "C"))] (some (s "c")) [(s "super", .scalar (.atom (.promise (s "ghost"))))] [] []])] }]
+example : (match apply (MM.free []) opsGraph stuckDoc with | .error e => some e | .ok _ => none)
+    = some (.unfulfilled [s "nobody", s "ghost"]) := by decide
+example : (match run (MM.free []) ((init opsGraph stuckDoc).measure + 1) (init opsGraph stuckDoc) with
+    | some (.ok sf) => some (sf.deferred.map (·.1), sf.ps, sf.queue.length, sf.agenda.length) | _ => none)
+    = some ([s "nobody", s "ghost"], [(s "c", 5)], 0, 0) := by decide
 
 end Capella.Props.C12
